@@ -147,6 +147,14 @@ func (e *Engine) verifyFunction(name string) error {
 		}
 		fr := st.pushFrame(fn, args, bindings, nil)
 		if c != nil {
+			// "unshared <param>": the object is not yet reachable by other goroutines (an initialiser); callers prove it
+			for _, pn := range strings.Fields(c.Flags["unshared"]) {
+				for i, p := range fn.Params {
+					if p.Name() == pn && len(args[i].C) > 0 {
+						st.private[args[i].C[0]] = true
+					}
+				}
+			}
 			fr.isThread = c.Thread
 			sc := st.specCtx(fr, name+" requires")
 			sc.grant = true
@@ -296,6 +304,17 @@ func (st *State) modularCall(fr *Frame, in ssa.Instruction, fn *ssa.Function, c 
 	}
 	if c.Assumed {
 		e.assumeUsed("assumed contract (body not verified): " + name)
+	}
+	for _, pn := range strings.Fields(c.Flags["unshared"]) {
+		for i, p := range fn.Params {
+			if p.Name() == pn && len(args[i].C) > 0 {
+				goal := "false"
+				if st.private[args[i].C[0]] {
+					goal = "true"
+				}
+				st.oblige("own", "unshared:"+name+"#"+pn, mergeProps(c.Props, []string{"C16"}), goal, pos)
+			}
+		}
 	}
 	st.onModularCall(fr, fn, c, args, pos)
 	preAlloc := st.alloc()
@@ -467,6 +486,9 @@ func (st *State) debugRef(fr *Frame, x *ssa.DebugRef) {
 	}
 	if strings.HasPrefix(id.Name, "$") {
 		return
+	}
+	if fr.cellVars[id.Name] {
+		return // an address-taken local keeps denoting the content of its cell
 	}
 	for _, fv := range fr.fn.FreeVars {
 		if fv.Name() == id.Name {
